@@ -728,6 +728,7 @@ func (e *Engine) registerIntrinsics() {
 		}
 		return Tuple{Iface{}, notExist(r)}
 	}
+	in["os.Lstat"] = in["os.Stat"] // (no links in the recorder's world)
 	in["os.IsNotExist"] = func(r *Run, fr *frame, a []Value) Value {
 		return r.equal(nil, a[0], notExist(r))
 	}
